@@ -14,7 +14,7 @@
    observed; not proved unreachable, see SPEC "partial")
      g_dupcreate a pending create that meets an existing validator
      g_negwd     a negative FinalBalance written off / a negative penalty credited. *)
-From VF.C07 Require Import Model ProofsLedger ProofsTx ProofsSlash ProofsRewards ProofsEffect.
+From VF.C07 Require Import Model ProofsLedger ProofsTx ProofsSlash ProofsRewards ProofsEffect ProofsInv.
 From Coq Require Import Lia.
 Local Open Scope Z_scope.
 
@@ -41,12 +41,49 @@ Proof.
   intros p l s s' W B R H1 H2 H3 H4 H5. destruct (run_chain_total p l s s' W B R) as [T _].
   unfold total, leaked in T. lia.
 Qed.
-Theorem C07_holds_outside :
-  forall p l s s', wf p s -> Forall block_ok l -> run_chain p s l = Ok s' ->
-    g_minted s' = g_minted s -> g_dust s' = g_dust s -> g_dropped s' = g_dropped s ->
-    g_dupcreate s' = g_dupcreate s -> g_negwd s' = g_negwd s -> supply s' = supply s.
-Proof. exact holds_outside. Qed.
-Print Assumptions C07_holds_outside.
+(* A pending create never meets an existing validator: along every chain that
+   starts from a ledger whose pending creates are for distinct addresses, sit in
+   the record (0, address) and are not validators yet ([cinv], re-established by
+   every block), the counter g_dupcreate does not move. *)
+Theorem C07_create_never_dropped :
+  forall p l s s', cinv s -> run_chain p s l = Ok s' -> g_dupcreate s' = g_dupcreate s /\ cinv s'.
+Proof. exact run_chain_dup. Qed.
+Print Assumptions C07_create_never_dropped.
+
+(* "_partial": the statement one wants has only the three finding-class counters
+   as hypotheses.  g_dupcreate is disposed of by C07_create_never_dropped.  That
+   g_negwd never moves is proved only step by step (C07_anomalies_local_partial
+   below): over whole chains it needs the non-negativity of all staked amounts
+   (C08: Token = SelfToken + sum of the delegations), which is not proved here
+   (the in-Coq model runs flag any history on which it moves: field 9 of the
+   comparison; none ever did). *)
+Lemma holds_outside4 : forall p l s s', wf p s -> cinv s -> Forall block_ok l -> run_chain p s l = Ok s' ->
+  g_minted s' = g_minted s -> g_dust s' = g_dust s -> g_dropped s' = g_dropped s -> g_negwd s' = g_negwd s ->
+  supply s' = supply s.
+Proof.
+  intros p l s s' W C B R H1 H2 H3 H5. destruct (run_chain_dup p l s s' C R) as [H4 _].
+  eapply holds_outside; eauto.
+Qed.
+Theorem C07_holds_outside_partial :
+  forall p l s s', wf p s -> cinv s -> Forall block_ok l -> run_chain p s l = Ok s' ->
+    g_minted s' = g_minted s -> g_dust s' = g_dust s -> g_dropped s' = g_dropped s -> g_negwd s' = g_negwd s ->
+    supply s' = supply s.
+Proof. exact holds_outside4. Qed.
+Print Assumptions C07_holds_outside_partial.
+
+Lemma anomalies_local :
+  (forall s w s1 w1, withdraw_step s w = (s1, w1) -> 0 <= w_final w -> g_negwd s1 = g_negwd s /\ g_dupcreate s1 = g_dupcreate s) /\
+  (forall p s typ val amount s', do_penalize p s typ val amount = Ok s' -> 0 <= amount -> g_negwd s' = g_negwd s /\ g_dupcreate s' = g_dupcreate s) /\
+  (forall p s id from c s', take_effect p s (mkPtx id from (ACreate c)) = Ok s' -> get_val s (c_main c) = None ->
+     g_dupcreate s' = g_dupcreate s /\ g_negwd s' = g_negwd s /\ get_val s' (c_main c) = Some (new_validator p c)).
+Proof. split; [exact anomaly_withdraw|split; [exact anomaly_penalty|exact anomaly_create]]. Qed.
+Theorem C07_anomalies_local_partial :
+  (forall s w s1 w1, withdraw_step s w = (s1, w1) -> 0 <= w_final w -> g_negwd s1 = g_negwd s /\ g_dupcreate s1 = g_dupcreate s) /\
+  (forall p s typ val amount s', do_penalize p s typ val amount = Ok s' -> 0 <= amount -> g_negwd s' = g_negwd s /\ g_dupcreate s' = g_dupcreate s) /\
+  (forall p s id from c s', take_effect p s (mkPtx id from (ACreate c)) = Ok s' -> get_val s (c_main c) = None ->
+     g_dupcreate s' = g_dupcreate s /\ g_negwd s' = g_negwd s /\ get_val s' (c_main c) = Some (new_validator p c)).
+Proof. exact anomalies_local. Qed.
+Print Assumptions C07_anomalies_local_partial.
 
 (* ---- witnesses: the faithful model of the current code does not conserve ---------- *)
 
@@ -217,3 +254,17 @@ Example C07_nonvacuous_activation :
   tx_checked ex_p pt /\ exists s', take_effect ex_p ex_s pt = Ok s' /\ opt_f v_token (get_val s' 5) = 23000.
 Proof. split; [reflexivity|]. eexists. split; vm_compute; reflexivity. Qed.
 Print Assumptions C07_nonvacuous_activation.
+
+(* a ledger with a pending create satisfies the invariant of C07_create_never_dropped *)
+Lemma cinv_ex_s : cinv ex_s. Proof. unfold cinv. cbn. repeat split; [constructor|constructor|contradiction]. Qed.
+Example C07_nonvacuous_create :
+  let t := mkTx 0 7 0 2000000 1 101660 (TxStake (ACreate (mkCreate 3 7 8 9 2 6000 1 100 10000))) in
+  cinv ex_s /\ exists s', apply_tx ex_p (begin_block ex_p ex_s) t = Some s' /\ creates (s_recs s') = [9] /\ cinv s'.
+Proof.
+  intro t. split; [exact cinv_ex_s|].
+  destruct (apply_tx ex_p (begin_block ex_p ex_s) t) as [s'|] eqn:E; [|vm_compute in E; discriminate].
+  exists s'. split; [reflexivity|].
+  split; [|eapply apply_tx_cinv; [apply begin_block_cinv; exact cinv_ex_s|exact E]].
+  vm_compute in E. injection E as <-. reflexivity.
+Qed.
+Print Assumptions C07_nonvacuous_create.
